@@ -31,6 +31,12 @@ Definition name_of (o : op) : option bytes :=
   | _ => None
   end.
 
+(* whatever the operation on <u> does, it does it to <u>.user / <u>.admin (and the work area) only *)
+Definition footprint_ok (u : bytes) (a b : dirst) : bool :=
+  let keep d := filter (fun e => negb (beq (fst e) tmp_name) && negb (beq (fst e) (u ++ ext_user))
+                                 && negb (beq (fst e) (u ++ ext_admin))) d in
+  dir_eqb (keep a) (keep b) && dir_eqb (keep b) (keep a).
+
 Fixpoint monitor (cur : dirst) (steps : list hstep) (i : N) : option N :=
   match steps with
   | [] => None
@@ -38,7 +44,7 @@ Fixpoint monitor (cur : dirst) (steps : list hstep) (i : N) : option N :=
       let next := match sn with SnapSame => cur | Snap x => x end in
       let ok :=
         match name_of o with
-        | Some u => if schema_name u then true else refused o ob sn
+        | Some u => if schema_name u then footprint_ok u cur next else refused o ob sn
         | None =>
             (* listings never show a user whose name is outside the grammar *)
             match ob with
